@@ -84,7 +84,7 @@ package contracts
 //@   params l
 //@   results f err
 //@   note dup(2) of the listener's descriptor into a fresh *os.File that owns the new number
-//@   ensures err == nil ==> f != nil && fresh(f) && f.gfd >= 3 && !old(fdopen[f.gfd]) && fdopen[f.gfd]
+//@   ensures err == nil ==> f != nil && fresh(f) && f.gfd >= 3 && f.gfd < 2147483647 && !old(fdopen)[f.gfd] && fdopen[f.gfd]
 //@   ensures err != nil ==> f == nil
 //@   ensures forall x int :: (err != nil || x != f.gfd) ==> fdopen[x] == old(fdopen[x])
 //@   modifies fdopen
@@ -92,7 +92,7 @@ package contracts
 //@ extern (*net.UnixListener).File
 //@   params l
 //@   results f err
-//@   ensures err == nil ==> f != nil && fresh(f) && f.gfd >= 3 && !old(fdopen[f.gfd]) && fdopen[f.gfd]
+//@   ensures err == nil ==> f != nil && fresh(f) && f.gfd >= 3 && f.gfd < 2147483647 && !old(fdopen)[f.gfd] && fdopen[f.gfd]
 //@   ensures err != nil ==> f == nil
 //@   ensures forall x int :: (err != nil || x != f.gfd) ==> fdopen[x] == old(fdopen[x])
 //@   modifies fdopen
@@ -131,3 +131,11 @@ package contracts
 //@   note read(2): fills a prefix of p
 //@   ensures n <= len(p)
 //@   modifies mem
+//@
+//@ extern syscall.Syscall
+//@   params trap a1 a2 a3
+//@   results r1 r2 err
+//@   note netpoll uses it only for eventfd2(2) (trap 290): a fresh descriptor on success, nothing otherwise
+//@   ensures trap == 290 && err == 0 ==> r1 >= 3 && r1 < 2147483647 && !old(fdopen)[r1] && fdopen[r1]
+//@   ensures forall x int :: (err != 0 || x != r1) ==> fdopen[x] == old(fdopen[x])
+//@   modifies fdopen
